@@ -96,6 +96,43 @@ theorem compressor_reuse (l : Lib) (ms : List Bytes) :
   have := compressAll_sinks l cinit ms rfl
   simpa [cinit] using this
 
+/-! ## fresh instances, in every environment -/
+
+/-- **Fresh construction round-trips in every environment**: a compressor and a decompressor
+constructed while the process may use `e.procs` CPUs — one, two or many — return every message
+byte-exact, the empty one included (`historyOk`, the predicate the check evaluates on what the
+real constructors deliver under `runtime.GOMAXPROCS(e.procs)`). -/
+theorem fresh_roundtrip_any_env (l : Lib) (hl : l.Lawful) (e : Env) (k : Kind) (ms : List Bytes) :
+    freshRoundTrip l e k ms = ms.map .data ∧
+    historyOk (ms.map some) (freshRoundTrip l e k ms) = true := by
+  have h1 : freshRoundTrip l e k ms = ms.map .data := by
+    unfold freshRoundTrip cconstruct construct
+    simp only []
+    rw [compressor_reuse l ms]
+    generalize init k = s
+    induction ms generalizing s with
+    | nil => rfl
+    | cons m t ih =>
+      simp only [List.map_cons, runH, hstep]
+      rw [ih]
+      simp [cycle_valid l hl s m]
+  refine ⟨h1, ?_⟩
+  rw [h1]
+  clear h1
+  unfold historyOk
+  simp only [List.length_map, beq_self_eq_true, Bool.true_and]
+  induction ms with
+  | nil => rfl
+  | cons m t ih =>
+    simp only [List.map_cons, List.zip_cons_cons, List.all_cons, ih, Bool.and_true]
+    simp
+
+/-- the environment is not an input of the wrappers at all -/
+theorem construct_env_independent (e e' : Env) (k : Kind) :
+    construct e k = construct e' k ∧ cconstruct e = cconstruct e' := ⟨rfl, rfl⟩
+
+example : freshRoundTrip toyLib ⟨1⟩ .zstd [[1, 2], [], [3]] = [.data [1, 2], .data [], .data [3]] := by decide
+
 /-! ## raw-payload encoders (`internal/raw_http_body.go` with the compressors of `internal/compression`) -/
 
 /-- A present payload — also the empty one — written by `WriteRawMessageContents` under one of
